@@ -1196,6 +1196,8 @@ class ContactHandler(Messenger, dbus.service.Object):
         # Receive state
         # Active RX bundle
         self._rx_tmp = None
+        # True after the SESS_TERM of the peer has been received
+        self._peer_term = False
         # Full RX bundles pending delivery (as BundleItem)
         self._rx_bundles = []
         # Names of pending RX bundles
@@ -1257,10 +1259,19 @@ class ContactHandler(Messenger, dbus.service.Object):
 
     def recv_sess_term(self, reason):
         Messenger.recv_sess_term(self, reason)
+        self._peer_term = True
 
         # No further processing
         self._tx_flush_pend_start()
         self._check_sess_term()
+
+    def recv_raw(self, data):
+        Messenger.recv_raw(self, data)
+
+        # Messages which followed the SESS_TERM of the peer in the same read
+        # have been handled by now, so check again for the end of the session
+        if self._peer_term and self.get_app_socket() is not None:
+            self._check_sess_term()
 
     def _tx_flush_pend_start(self):
         ''' Report and drop all transfers which have not been started. '''
